@@ -6,6 +6,7 @@ import (
 	"context"
 	"errors"
 	"fmt"
+	"os"
 	"runtime"
 	"sort"
 	"strconv"
@@ -243,6 +244,8 @@ func lfStopPath(sys *actorSystem) string {
 		return "poisonpill"
 	case has("(*actorSystem).shutdown"):
 		return "system-stop"
+	case has("lfOpShutdown"):
+		return "shutdown"
 	}
 	return "other"
 }
@@ -615,6 +618,26 @@ func (w *lfWorld) addChild(parent, child string) {
 	}
 	w.children[parent] = append(w.children[parent], child)
 	w.mu.Unlock()
+}
+
+// lfExploreAll explores the scenarios in the given order. Unlike vsched.ExploreAll it does not split
+// the wall budget into equal shares: a scenario takes what it needs and the rest is left to the later
+// ones, so the callers list small explorations first. VERIF_SCENARIO_FILTER works as in the engine.
+func lfExploreAll(scs []vsched.Scenario) {
+	r := vsched.Rep()
+	if f := os.Getenv("VERIF_SCENARIO_FILTER"); f != "" {
+		var keep []vsched.Scenario
+		for _, sc := range scs {
+			if strings.Contains(sc.Cfg.Scenario, f) {
+				keep = append(keep, sc)
+			}
+		}
+		scs = keep
+		r.Note("VERIF_SCENARIO_FILTER=%s active: this run is partial", f)
+	}
+	for _, sc := range scs {
+		vsched.Explore(sc.Cfg, sc.Run)
+	}
 }
 
 type lfEvent struct {
